@@ -21,7 +21,11 @@ RULE_TEXT = "obligations per accepting path x {checker, type, version, verify-ol
 def run(ctx, deps=True):
     eng = ctx.eng
     ctx.assume("A1", "A3", "A8")
-    sm = eng.walk("authentication.verify_root")
+    # verify_root may delegate the signature checks to its public sibling verify_delegation: that
+    # one is analysed in place, so that the verify_signable calls it makes are seen here
+    fi_vr = eng.prog.func("authentication.verify_root")
+    inline_vr = (eng.private_helpers(fi_vr.mod.short) - {fi_vr.qualname}) | ({"authentication.verify_delegation"} if "authentication.verify_delegation" in eng.prog.funcs else set())
+    sm = eng.walk("authentication.verify_root", None, frozenset(inline_vr))
     T, U = P(sm.params[0]), P(sm.params[1])
     site = fn_site(eng, sm)
     rets = [p for p in sm.paths if p.kind == "return"]
